@@ -67,13 +67,13 @@ PLAN["C04"] = {
 
 PLAN["C05"] = {
     "level": "exploration",
-    "rule": "every automaton of TA(n,Sigma,<=k) under 3 numberings (dense, sparse 7q+3, descending): Reduce() vs reference (language equal, #states and #rules not larger, result is "
+    "rule": "every automaton of TA(n,Sigma,<=k) under 3 numberings (dense, sparse 7q+3, descending) and, for the 4-state domains, under ALL rule insertion orders (hash iteration order): Reduce() vs reference (language equal, #states and #rules not larger, result is "
             "an onto homomorphic image: some map of A's states onto the result's states carries finals and rules of the result), operand unchanged; non-trivial = non-empty language and >=2 rules",
     "assumptions": COMMON_ASSUMPTIONS,
     "claim": "Every automaton of the finite domains under three numberings.",
     "technique": "bounded exhaustive enumeration of automata x numberings against reference language equality and image search",
-    "quick": [("rel", "c05.n3s3pk4"), ("rel", "c05.n2s3k6")],
-    "thorough": [("rel", "c05.n3s3pk5"), ("rel", "c05.n2s3k7")],
+    "quick": [("rel", "c05.n3s3pk4"), ("rel", "c05.n2s3k6"), ("rel", "c05.n4afk4"), ("rel", "c05.n4afk5.std")],
+    "thorough": [("rel", "c05.n4afk5"), ("rel", "c05.n4s3pk3"), ("rel", "c05.n3s3pk5"), ("rel", "c05.n2s3k7")],
     "require": {"all": ["reduced_states", "class_useless_states", "lang_nonempty"]},
 }
 
@@ -112,4 +112,44 @@ PLAN["C15"] = {
     "quick": [("rel", "c15.n3s3pk4"), ("rel", "c15.n2s3k6")],
     "thorough": [("rel", "c15.n3s3pk5"), ("rel", "c15.n2s3k7"), ("rel", "c15.n4agk4")],
     "require": {"all": ["class_leaf_only_language", "class_no_leaf_accepted", "class_unproductive_final", "lang_empty"]},
+}
+
+PLAN["C16"] = {
+    "level": "exploration",
+    "rule": "every LTS of LTS(n states, L labels, <=k edges) (isolated states included; systems with <=3 edges also with one edge inserted twice) x every partition of the states x every "
+            "reflexive-transitive relation on the blocks x every output size 1..n, plus the partition-free entries computeSimulation(size 0..n) and computeSimulation(): result compared "
+            "entry-wise on [0,out)^2 with the greatest simulation inside the initial relation computed by the naive fixpoint; an evaluation = one (system, partition, preorder, size); "
+            "non-trivial = at least one edge and some off-diagonal pair is related or pruned",
+    "assumptions": COMMON_ASSUMPTIONS,
+    "claim": "Every LTS x partition x block preorder x output size of the finite domains, relation compared entry by entry with the definition.",
+    "technique": "bounded exhaustive enumeration of labelled transition systems x all partitions x all block preorders against a naive greatest-fixpoint simulation",
+    "quick": [("rel", "c16.n3l2k7"), ("rel", "c16.n4l1k4b3"), ("rel", "c16.n3l3k4"), ("rel", "c16.n4l2k3b3")],
+    "thorough": [("rel", "c16.n3l2all"), ("rel", "c16.n4l1all"), ("rel", "c16.n3l3k5"), ("rel", "c16.n4l2k5b3"), ("rel", "c16.n5l1k5b3"), ("asan", "c16.n3l2k5"), ("asan", "c16.n4l1k4b3")],
+    "require": {"all": ["relation_pruned", "relation_kept"]},
+}
+
+PLAN["C09"] = {
+    "level": "exploration",
+    "rule": "every ordered pair (A,B) of FA(n states, symbols, <=k transitions per side, ANY start set, ANY final set) x {antichains, congruence depth-first, congruence breadth-first} x "
+            "{raw operands with overlapping state numbers, operands prepared by SanitizeAutsForInclusion as the CLI does} vs the reference subset construction; built with NDEBUG "
+            "(with assertions on the identity comparator of the antichain variant is a bare assert(false)); non-trivial = both languages non-empty and A != B",
+    "assumptions": COMMON_ASSUMPTIONS + ["simulation-based NFA variants are outside the statement (ExplicitFiniteAut::ComputeSimulation is assert(false)) and are not called"],
+    "claim": "Every ordered pair of NFAs of the finite domains through all three algorithms at API level and CLI level.",
+    "technique": "bounded exhaustive enumeration of NFA pairs x algorithm selections against a reference subset construction",
+    "quick": [("rel", "c09.n2l1"), ("rel", "c09.n2l2k3")],
+    "thorough": [("rel", "c09.n2l1"), ("rel", "c09.n2l2all"), ("rel", "c09.n3l1k4"), ("rel", "c09.n3l2t4")],
+    "require": {"all": ["expect_included", "expect_not_included", "nonemptyA_included", "class_several_start_states", "class_A_accepts_empty_word", "class_symbol_only_in_A", "class_unreachable_or_dead_state"]},
+}
+
+PLAN["C10"] = {
+    "level": "exploration",
+    "rule": "every NFA of FA(n,symbols,<=k, any start/final sets): Reverse, RemoveUnreachableStates, RemoveUselessStates (with/without map), GetCandidateTree, each result read through "
+            "the core fields AND through DumpToString + reload (both views must denote the expected language); every ordered pair: Union (no maps / empty maps), UnionDisjointStates "
+            "(shifted), Intersection (with/without map) vs reference union / product / mirror; operands unchanged; non-trivial = non-empty language(s)",
+    "assumptions": COMMON_ASSUMPTIONS + ["start symbols (the nullary Timbuk symbols naming start states) carry no language; only start states do"],
+    "claim": "Every NFA / ordered pair of the finite domains; empty-word acceptance, several start states and product states with one start component are mandatory outcome classes.",
+    "technique": "bounded exhaustive enumeration of NFAs and NFA pairs against reference union/product/mirror/trim models",
+    "quick": [("rel", "c10.single.n3l2k4"), ("rel", "c10.pairs.n2l1"), ("rel", "c10.pairs.n2l2k3")],
+    "thorough": [("rel", "c10.single.n3l2k5"), ("rel", "c10.single.n4l1k5"), ("rel", "c10.pairs.n2l1"), ("rel", "c10.pairs.n2l2k4")],
+    "require": {"all": ["class_accepts_empty_word", "class_several_start_states", "class_product_state_with_one_start_component", "class_both_accept_empty_word", "intersection_nonempty", "lang_empty"]},
 }
